@@ -111,6 +111,19 @@ fn main() {
                 Err(e) => println!("{}", host::render_report(&e)),
             }
         }
+        "compiledir" => {
+            worker::install_panic_hook();
+            let rt = host::build_runtime();
+            match roto::FileTree::read(&args[2]).and_then(|t| t.compile(&rt)) {
+                Ok(mut pkg) => {
+                    println!("compiled ok");
+                    if let Ok(f) = pkg.get_function::<fn() -> i32>("main") {
+                        println!("main() = {}", f.call());
+                    }
+                }
+                Err(e) => println!("{}", host::render_report(&e)),
+            }
+        }
         "reduce" => {
             // debug: reduce a replay file in-process
             worker::install_panic_hook();
